@@ -539,8 +539,10 @@ func c20RunSeq(c *c20Case) c20Result {
 	okT := func(t int) bool { return t >= 0 && t < len(c.Targets) }
 	okL := func(l int) bool { return l >= 0 && l < c.NL }
 	curL := map[int]int{}
-	blockedOn := func(t int) int {
-		// the listener blocked in a callback for a message of target t (lowest id)
+	regSet := map[[2]int]bool{} // (listener, target) the harness registered and did not unregister
+	idleL := map[int][]int{}    // target -> what the last unreg_idle unregistered
+	blockedOnM := func(t int) (int, int) {
+		// the listener blocked in a callback for a message of target t (lowest id), and the message
 		evs := b.log.snapshot()
 		pubT := map[int]int{}
 		for _, e := range evs {
@@ -555,13 +557,17 @@ func c20RunSeq(c *c20Case) c20Result {
 			for i := len(evs) - 1; i >= 0; i-- {
 				if evs[i].K == "ERecv" && evs[i].L == l.id {
 					if pubT[evs[i].M] == t {
-						return l.id
+						return l.id, evs[i].M
 					}
 					break
 				}
 			}
 		}
-		return -1
+		return -1, -1
+	}
+	blockedOn := func(t int) int {
+		l, _ := blockedOnM(t)
+		return l
 	}
 	doPub := func(t, m int) bool {
 		// logged when the call begins (callbacks may run before it returns); the result is filled in
@@ -581,6 +587,9 @@ func c20RunSeq(c *c20Case) c20Result {
 			return false
 		}
 		b.log.add(c20Ev{K: "EReg", Ti: t, L: l, Ok: err == nil})
+		if err == nil {
+			regSet[[2]int{l, t}] = true
+		}
 		return quiet("register")
 	}
 	doUnreg := func(t, l int) bool {
@@ -589,6 +598,7 @@ func c20RunSeq(c *c20Case) c20Result {
 			return false
 		}
 		b.log.add(c20Ev{K: "EUnreg", Ti: t, L: l})
+		delete(regSet, [2]int{l, t})
 		return quiet("unregister")
 	}
 loop:
@@ -627,9 +637,82 @@ loop:
 					break loop
 				}
 			}
+		case "unreg_idle":
+			// while a callback for a message of target T is held: unregister N (default 1) of the
+			// listeners of T that the dispatch of that message has not called yet (lowest ids
+			// first, M=1: highest first) -- whether the loop has them still ahead or has passed
+			// them is the implementation's own order
+			if okT(o.T) {
+				if cur, m := blockedOnM(o.T); cur >= 0 {
+					got := map[int]bool{}
+					for _, e := range b.log.snapshot() {
+						if e.K == "ERecv" && e.M == m {
+							got[e.L] = true
+						}
+					}
+					var cands []int
+					for l := 0; l < c.NL; l++ {
+						if regSet[[2]int{l, o.T}] && l != cur && !got[l] && !b.ls[l].blockedNow() {
+							cands = append(cands, l)
+						}
+					}
+					if o.M == 1 {
+						sort.Sort(sort.Reverse(sort.IntSlice(cands)))
+					}
+					n := o.N
+					if n <= 0 {
+						n = 1
+					}
+					if n > len(cands) {
+						n = len(cands)
+					}
+					idleL[o.T] = append([]int(nil), cands[:n]...)
+					for _, l := range idleL[o.T] {
+						if !doUnreg(o.T, l) {
+							break loop
+						}
+					}
+				}
+			}
+		case "reg_idle":
+			if okT(o.T) {
+				for _, l := range idleL[o.T] {
+					if !doReg(o.T, l) {
+						break loop
+					}
+				}
+			}
+		case "release_cur":
+			if okT(o.T) {
+				if l := blockedOn(o.T); l >= 0 {
+					b.log.add(c20Ev{K: "ERelease", L: l})
+					b.ls[l].release()
+					if !quiet(o.K) {
+						break loop
+					}
+				}
+			}
 		case "gate":
 			if okL(o.L) {
 				b.ls[o.L].setGated(true)
+			}
+		case "gate_all":
+			// one op, so that a shrunk script does not depend on which listener the loop calls first
+			for _, l := range b.ls {
+				l.setGated(true)
+			}
+		case "ungate_all":
+			for _, l := range b.ls {
+				l.setGated(false)
+			}
+			for _, l := range b.ls {
+				if l.blockedNow() {
+					b.log.add(c20Ev{K: "ERelease", L: l.id})
+					l.release()
+					if !quiet(o.K) {
+						break loop
+					}
+				}
 			}
 		case "ungate", "release":
 			if okL(o.L) {
@@ -980,9 +1063,10 @@ func c20DirectedUnbalanced(id int) []*c20Case {
 	return cs
 }
 
-// mode 0: callbacks that block, anything goes
+// mode 4 (compared with the model as in mode 0, and judged by the clauses of P_C20 that hold
+// of every history): callbacks that block, anything goes
 func c20GenGated(r *vrng, id int) *c20Case {
-	c := &c20Case{Id: id, Mode: 0, Gen: "gated", NL: 2 + r.intn(4)}
+	c := &c20Case{Id: id, Mode: 4, Gen: "gated", NL: 2 + r.intn(4)}
 	c.Targets = c20GenTargets(r, 1+r.intn(4), r.chance(80))
 	n := 15 + r.intn(35)
 	m := 1
@@ -1129,6 +1213,352 @@ func c20GenConc(r *vrng, id int) *c20Case {
 		c.Ops = append(c.Ops, c20Op{K: "w_lis", Seed: r.intn(1 << 20), Ts: ts, Ls: ls, N: 20 + r.intn(50)})
 	}
 	return c
+}
+
+// ---- listener changes that fall into the dispatch of one message (directed) -------------------
+//
+// A callback of the message is held; the harness then changes the listeners the dispatch has
+// not called yet; the callback is released.
+//   late-unreg: one / all of the others are unregistered (the call returns while the dispatch is
+//     inside the held callback): they must not be called for that message any more (P_C20
+//     clause (e); the model: the membership check before each callback), the rest must be.
+//   late-rereg: one of the others is unregistered, the next callback is held, the listener is
+//     registered again, the callback is released.  If the loop had passed the entry while it
+//     was not a member it is not called, if the entry was still ahead it is: both are runs of
+//     the model (Pick of a non-member / of a member), which one is the implementation's map
+//     order.  Both outcomes are counted in the statistics (late_rereg_called / _skipped).
+// For each of the four subject kinds, 2-4 listeners.
+func c20LateTarget(k int) c20Target {
+	if k == 3 {
+		return c20Target{K: 3, Id: "late1"}
+	}
+	return c20Target{K: k, Id: "late", B: "b1"}
+}
+
+func c20DirectedLate(id int, reps int) []*c20Case {
+	var cs []*c20Case
+	start := func(gen string, k, n int) *c20Case {
+		c := &c20Case{Id: id, Mode: 4, Gen: gen, NL: n, Targets: []c20Target{c20LateTarget(k)}}
+		id++
+		for l := 0; l < n; l++ {
+			c.Ops = append(c.Ops, c20Op{K: "reg", T: 0, L: l})
+		}
+		c.Ops = append(c.Ops, c20Op{K: "gate_all"}, c20Op{K: "pub", T: 0, M: 1})
+		return c
+	}
+	finish := func(c *c20Case, n int) {
+		for l := 0; l < n; l++ {
+			c.Ops = append(c.Ops, c20Op{K: "release_cur", T: 0})
+		}
+		c.Ops = append(c.Ops, c20Op{K: "ungate_all"})
+		c.Ops = append(c.Ops, c20Op{K: "pub", T: 0, M: 2}, c20Op{K: "reg_idle", T: 0}, c20Op{K: "pub", T: 0, M: 3}, c20Op{K: "digest"})
+		cs = append(cs, c)
+	}
+	for k := 0; k < 4; k++ {
+		for n := 2; n <= 4; n++ {
+			for v := 0; v < 3; v++ {
+				if n == 2 && v > 0 {
+					continue
+				}
+				c := start("late-unreg", k, n)
+				switch v {
+				case 0:
+					c.Ops = append(c.Ops, c20Op{K: "unreg_idle", T: 0, N: 1})
+				case 1:
+					c.Ops = append(c.Ops, c20Op{K: "unreg_idle", T: 0, N: 1, M: 1})
+				default:
+					c.Ops = append(c.Ops, c20Op{K: "unreg_idle", T: 0, N: n - 1})
+				}
+				finish(c, n)
+			}
+		}
+		for rep := 0; rep < reps; rep++ {
+			for n := 3; n <= 4; n++ {
+				c := start("late-rereg", k, n)
+				c.Ops = append(c.Ops, c20Op{K: "unreg_idle", T: 0, N: 1, M: rep % 2},
+					c20Op{K: "release_cur", T: 0}, c20Op{K: "reg_idle", T: 0})
+				finish(c, n)
+			}
+		}
+	}
+	return cs
+}
+
+// ---- forced schedules on the locks ---------------------------------------------------------------
+//
+// A phased script (mode 2, judged by P_C20 on the history of call starts, call ends and
+// callbacks): calls made one after the other (reg / unreg / pub, the bus quiescent after each),
+// and calls that overlap because the harness holds a mutex they need:
+//   hold T (N=0: the mutex of the subscriber of target T; N=1: the mutex of the loopback
+//     client; N=2: both), go_unreg / go_reg T L: the call is started on a goroutine of its own
+//     and the harness waits until that goroutine is parked in Mutex.Lock (or has returned);
+//     unhold: the mutexes are released, the overlapping calls must all return (5 s), the bus
+//     must become quiescent.
+// While the subscriber's mutex is held, an unregistration sits in removeListener, a registration
+// for the same subject behind it (in addListener, or at asyncEventsNats.mu): the calls then
+// finish in the order the mutexes hand them over -- a schedule in which whatever the
+// unregistration does after removeListener happens after the registration, if the code lets it.
+func c20AsyncCall(f func(), done chan struct{}) {
+	f()
+	close(done)
+}
+
+// how many goroutines of overlapping calls are parked in Mutex.Lock
+func c20AsyncParked() int {
+	c20StackMu.Lock()
+	defer c20StackMu.Unlock()
+	n := runtime.Stack(c20StackBuf, true)
+	k := 0
+	for _, g := range strings.Split(string(c20StackBuf[:n]), "\n\n") {
+		if !strings.Contains(g, "signaling.c20AsyncCall") {
+			continue
+		}
+		hdr := g
+		if i := strings.IndexByte(g, '\n'); i >= 0 {
+			hdr = g[:i]
+		}
+		if strings.Contains(hdr, "[sync.Mutex.Lock") || strings.Contains(hdr, "[semacquire") {
+			k++
+		}
+	}
+	return k
+}
+
+func (b *c20Bus) subscriberMutex(ti int) *sync.Mutex {
+	t := b.targets[ti]
+	key := t.subject()
+	ev := b.events
+	ev.mu.Lock()
+	defer ev.mu.Unlock()
+	switch t.K {
+	case 0:
+		if s, ok := ev.backendRoomSubscriptions[key]; ok {
+			return &s.mu
+		}
+	case 1:
+		if s, ok := ev.roomSubscriptions[key]; ok {
+			return &s.mu
+		}
+	case 2:
+		if s, ok := ev.userSubscriptions[key]; ok {
+			return &s.mu
+		}
+	default:
+		if s, ok := ev.sessionSubscriptions[key]; ok {
+			return &s.mu
+		}
+	}
+	return nil
+}
+
+func c20IsPhased(c *c20Case) bool {
+	for _, o := range c.Ops {
+		if o.K == "w_pub" || o.K == "w_lis" {
+			return false
+		}
+	}
+	return true
+}
+
+func c20RunPhased(c *c20Case) c20Result {
+	b := newC20Bus(c.Targets, c.NL)
+	defer b.close()
+	g := b.log
+	stalled := ""
+	var held []*sync.Mutex
+	var pending []chan struct{}
+	okT := func(t int) bool { return t >= 0 && t < len(c.Targets) }
+	okL := func(l int) bool { return l >= 0 && l < c.NL }
+	allDone := func() int {
+		n := 0
+		for _, d := range pending {
+			select {
+			case <-d:
+				n++
+			default:
+			}
+		}
+		return n
+	}
+	unhold := func() bool {
+		for _, m := range held {
+			m.Unlock()
+		}
+		held = nil
+		dl := time.Now().Add(5 * time.Second)
+		for allDone() < len(pending) {
+			if time.Now().After(dl) {
+				stalled = "register / unregister calls that overlapped did not return within 5 s"
+				return false
+			}
+			time.Sleep(20 * time.Microsecond)
+		}
+		pending = nil
+		if !c20WaitQuiet(5 * time.Second) {
+			stalled = "no quiescence after overlapping calls"
+			return false
+		}
+		return true
+	}
+	async := func(f func()) {
+		done := make(chan struct{})
+		pending = append(pending, done)
+		go c20AsyncCall(f, done)
+		// until every overlapping call is parked at a mutex or has returned
+		dl := time.Now().Add(2 * time.Second)
+		for i := 0; ; i++ {
+			if allDone()+c20AsyncParked() >= len(pending) || time.Now().After(dl) {
+				return
+			}
+			if i < 10 {
+				runtime.Gosched()
+			} else {
+				time.Sleep(20 * time.Microsecond)
+			}
+		}
+	}
+	quiet := func(what string) bool {
+		if !c20WaitQuiet(5 * time.Second) {
+			stalled = "no quiescence after " + what
+			return false
+		}
+		return true
+	}
+loop:
+	for _, o := range c.Ops {
+		switch o.K {
+		case "pub", "reg", "unreg":
+			if len(held) > 0 || len(pending) > 0 {
+				if !unhold() {
+					break loop
+				}
+			}
+		}
+		switch o.K {
+		case "pub":
+			if !okT(o.T) {
+				continue
+			}
+			g.add(c20Ev{K: "HPubStart", M: o.M, Ti: o.T, Pl: c20Payload(o.M)})
+			var err error
+			if !c20Call(func() { err = b.publish(o.T, o.M) }) {
+				stalled = fmt.Sprintf("publisher blocked: Publish on target %d did not return within 5 s", o.T)
+				break loop
+			}
+			g.add(c20Ev{K: "HPubEnd", M: o.M, Ok: err == nil})
+			if !quiet("publish") {
+				break loop
+			}
+		case "reg":
+			if !okT(o.T) || !okL(o.L) {
+				continue
+			}
+			g.add(c20Ev{K: "HRegStart", L: o.L, Ti: o.T})
+			var err error
+			if !c20Call(func() { err = b.register(o.T, o.L) }) {
+				stalled = "register blocked"
+				break loop
+			}
+			g.add(c20Ev{K: "HRegEnd", L: o.L, Ti: o.T, Ok: err == nil})
+			if !quiet("register") {
+				break loop
+			}
+		case "unreg":
+			if !okT(o.T) || !okL(o.L) {
+				continue
+			}
+			g.add(c20Ev{K: "HUnregStart", L: o.L, Ti: o.T})
+			if !c20Call(func() { b.unregister(o.T, o.L) }) {
+				stalled = "unregister blocked"
+				break loop
+			}
+			g.add(c20Ev{K: "HUnregEnd", L: o.L, Ti: o.T})
+			if !quiet("unregister") {
+				break loop
+			}
+		case "hold":
+			if len(held) > 0 || !okT(o.T) {
+				continue
+			}
+			if o.N == 0 || o.N == 2 {
+				if m := b.subscriberMutex(o.T); m != nil {
+					m.Lock()
+					held = append(held, m)
+				}
+			}
+			if o.N == 1 || o.N == 2 {
+				b.client.mu.Lock()
+				held = append(held, &b.client.mu)
+			}
+		case "go_reg":
+			if !okT(o.T) || !okL(o.L) {
+				continue
+			}
+			t, l := o.T, o.L
+			g.add(c20Ev{K: "HRegStart", L: l, Ti: t})
+			async(func() {
+				err := b.register(t, l)
+				g.add(c20Ev{K: "HRegEnd", L: l, Ti: t, Ok: err == nil})
+			})
+		case "go_unreg":
+			if !okT(o.T) || !okL(o.L) {
+				continue
+			}
+			t, l := o.T, o.L
+			g.add(c20Ev{K: "HUnregStart", L: l, Ti: t})
+			async(func() {
+				b.unregister(t, l)
+				g.add(c20Ev{K: "HUnregEnd", L: l, Ti: t})
+			})
+		case "unhold":
+			if !unhold() {
+				break loop
+			}
+		}
+	}
+	if stalled == "" && (len(held) > 0 || len(pending) > 0) {
+		unhold()
+	} else {
+		for _, m := range held {
+			m.Unlock()
+		}
+		held = nil
+	}
+	return c20Result{evs: g.snapshot(), stalled: stalled}
+}
+
+// For each of the four kinds; the subject has one or two listeners; listener 0 is unregistered
+// while listener 2 registers (either call first), behind the subscriber's mutex, the loopback
+// client's mutex or both; then a publication: exactly the registered listeners get it (P_C20
+// clause (a) for the new and the remaining listener, (c) for the one that left); then the new
+// listener leaves, the old one comes back, a publication after each.
+func c20DirectedLockGate(id int) []*c20Case {
+	var cs []*c20Case
+	for k := 0; k < 4; k++ {
+		for pre := 1; pre <= 2; pre++ {
+			for hold := 0; hold < 3; hold++ {
+				for first := 0; first < 2; first++ {
+					c := &c20Case{Id: id, Mode: 2, Gen: "lockgate", NL: 3, Targets: []c20Target{c20LateTarget(k), {K: 2, Id: "other", B: "b1"}}}
+					id++
+					c.Ops = append(c.Ops, c20Op{K: "reg", T: 0, L: 0})
+					if pre == 2 {
+						c.Ops = append(c.Ops, c20Op{K: "reg", T: 0, L: 1})
+					}
+					c.Ops = append(c.Ops, c20Op{K: "pub", T: 0, M: 1}, c20Op{K: "hold", T: 0, N: hold})
+					if first == 0 {
+						c.Ops = append(c.Ops, c20Op{K: "go_unreg", T: 0, L: 0}, c20Op{K: "go_reg", T: 0, L: 2})
+					} else {
+						c.Ops = append(c.Ops, c20Op{K: "go_reg", T: 0, L: 2}, c20Op{K: "go_unreg", T: 0, L: 0})
+					}
+					c.Ops = append(c.Ops, c20Op{K: "unhold"}, c20Op{K: "pub", T: 0, M: 2},
+						c20Op{K: "unreg", T: 0, L: 2}, c20Op{K: "pub", T: 0, M: 3},
+						c20Op{K: "reg", T: 0, L: 0}, c20Op{K: "pub", T: 0, M: 4})
+					cs = append(cs, c)
+				}
+			}
+		}
+	}
+	return cs
 }
 
 // ---- the collision pool -----------------------------------------------------------------------
@@ -1382,6 +1812,23 @@ func c20Emit(sink *caseSink, c *c20Case, res c20Result) {
 		sink.count("ev_" + e.K)
 	}
 	sink.count("gen_" + c.Gen)
+	if c.Gen == "late-rereg" {
+		// was the listener that came back called for the message whose dispatch it left?
+		z, called := -1, false
+		for _, e := range res.evs {
+			if e.K == "EUnreg" && z < 0 {
+				z = e.L
+			}
+			if e.K == "ERecv" && e.L == z && e.M == 1 {
+				called = true
+			}
+		}
+		if called {
+			sink.count("late_rereg_called")
+		} else if z >= 0 {
+			sink.count("late_rereg_skipped")
+		}
+	}
 	sink.count(fmt.Sprintf("mode%d", c.Mode))
 	sink.count(fmt.Sprintf("events_%03d-%03d", len(evs)/50*50, len(evs)/50*50+49))
 	sink.count(fmt.Sprintf("callbacks_%03d-%03d", nrecv/20*20, nrecv/20*20+19))
@@ -1455,6 +1902,15 @@ func TestVerifC20(t *testing.T) {
 			nPlain, nGated, nOver, nBurst, nRereg, nConc, nUnbal = 1500, 1500, 30, 30, 300, 500, 600
 		}
 		id := 0
+		// listener changes inside the dispatch of one message; forced schedules on the locks
+		// (ids from 8000000; directed and deterministic whatever the map order, so they come
+		// first: the replay the driver reports is the first failing case)
+		reps := 2
+		if env.thorough() {
+			reps = 12
+		}
+		cases = append(cases, c20DirectedLate(8000000, reps)...)
+		cases = append(cases, c20DirectedLockGate(8100000)...)
 		// calls that change nothing (directed, then seeded); ids from 6000000 so that the seeded
 		// streams of the other generators stay what they were
 		ub := c20DirectedUnbalanced(6000000)
@@ -1504,7 +1960,9 @@ func TestVerifC20(t *testing.T) {
 	poolTargets := 0
 	for _, c := range cases {
 		var res c20Result
-		if c.Mode == 2 {
+		if c.Mode == 2 && c20IsPhased(c) {
+			res = c20RunPhased(c)
+		} else if c.Mode == 2 {
 			res = c20RunConc(c, env.seed)
 		} else {
 			res = c20RunSeq(c)
@@ -1522,5 +1980,5 @@ func TestVerifC20(t *testing.T) {
 	}
 	sink.extraFile("keys", c20KeyTable(newVrng(env.seed, 777777), 150))
 	sink.stats.Extra = map[string]float64{"harness_seconds": time.Since(t0).Seconds()}
-	sink.close("real asyncEventsNats over the real LoopbackNatsClient: seeded sequential scripts (publish/register/unregister on the four subject kinds, overlapping subjects, blocking callbacks, 64-slot overflow; collision pool: ids with their base64 / hex / separator / case / id|backend derivations as ids of their own, a listener per target and a publication per target, every ordered pair judged by P_C20 clause 3) run to quiescence after each call and replayed on the model; concurrent runs (publishers and registering/unregistering listeners) judged by P_C20; non-trivial = at least 3 callbacks; distinct = distinct event sequences")
+	sink.close("real asyncEventsNats over the real LoopbackNatsClient: seeded sequential scripts (publish/register/unregister on the four subject kinds, overlapping subjects, blocking callbacks, 64-slot overflow; collision pool: ids with their base64 / hex / separator / case / id|backend derivations as ids of their own, a listener per target and a publication per target, every ordered pair judged by P_C20 clause 3) run to quiescence after each call and replayed on the model; scripts with held callbacks also judged by the clauses of P_C20 that hold of every history (a listener changed inside the dispatch of one message: unregistered -> not called any more, clause 5; registered again -> called or not, both runs of the model); concurrent runs (publishers and registering/unregistering listeners) and phased scripts whose register / unregister calls overlap behind a mutex the harness holds (subscriber mutex, loopback client mutex) judged by P_C20; non-trivial = at least 3 callbacks; distinct = distinct event sequences")
 }
